@@ -103,11 +103,12 @@ def run(pid: str, tier: str, fn: Callable[[str], Result], replay: Optional[str] 
     if tier == "thorough" and not os.environ.get("JSTAT_REPO_IS_VARIANT"):
         try:
             from .selftest.run import run as selftest_run
-            st = selftest_run([pid], jobs=int(os.environ.get("JSTAT_JOBS", "16")))
+            st = selftest_run([pid], jobs=int(os.environ.get("JSTAT_JOBS", "16")), archived=True)
             unexpected = [r for r in st if r["status"] not in ("caught", "silent", "fail-closed")]
             res.extra["selftest"] = {
-                "what": "scratch variants of the current tree with one AST-computed edit each; breaking variants must be "
-                        "reported with the expected rule, behaviour-preserving twins must stay silent",
+                "what": "scratch variants of the current tree: AST-computed edits (breaking variants must be reported with the "
+                        "expected rule, behaviour-preserving twins must stay silent), plus the archived independent seeded "
+                        "changes (must still be reported) and independent behaviour-preserving refactorings (must stay silent)",
                 "variants": len(st), "breaking_caught": sum(1 for r in st if r["status"] == "caught"),
                 "twins_silent": sum(1 for r in st if r["status"] == "silent"),
                 "unexpected": [{k: r.get(k) for k in ("id", "status", "rules", "first", "detail")} for r in unexpected],
